@@ -53,7 +53,7 @@ fn neighbours(c: Code) -> Vec<Code> {
         })
     };
     for fam in ["zeta", "pi", "rice", "expgolomb", "golomb"] {
-        for k in [p.wrapping_sub(1), p, p + 1] {
+        for k in [p.wrapping_sub(1), p, p.wrapping_add(1)] {
             if let Some(n) = mk(fam, k) {
                 if n != c {
                     v.push(n);
